@@ -178,3 +178,48 @@ func zzC01_bmff_uuid() {
 	_ = zzBmffRun(z.b, 1, 1, false)
 	zzReached("end")
 }
+
+// fast structural harnesses: payload bytes are concrete (zero / pattern), every size field of the tree is arbitrary
+// from the size classes; all box types of each dispatch.
+func zzC01_bmff_sizes_N() int { return 24 }
+func zzC01_bmff_sizes() {
+	p := zzPart()
+	const N = 24 + 8 + 24 + 8 + 40 + 16
+	z := &zzBuf{b: make([]byte, N)}
+	z.str(0, zzFtyp)
+	for i := 24; i < N; i++ {
+		z.b[i] = byte(i)
+	}
+	switch {
+	case p < 6: // top-level box of every type
+		typ := []string{"mdat", "meta", "moov", "uuid", "free", "zzzz"}[p]
+		z.box(24, zzSize("s0", N, N-24), typ)
+		z.put32(32, 0)
+		z.box(36, zzSize("s1", N, 20), "free")
+	case p < 14: // meta -> child of every handled type
+		typ := []string{"hdlr", "pitm", "iinf", "iref", "iprp", "idat", "iloc", "uuid"}[p-6]
+		z.box(24, zzSize("s0", N, N-24), "meta")
+		z.put32(32, 0)
+		z.box(36, zzSize("s1", N, 40), typ)
+		z.put32(44, 0)
+		z.box(50, zzSize("s2", N, 24), "infe")
+	case p < 21: // moov -> uuid(cr3) -> child of every handled type
+		typ := []string{"CNCV", "CTBO", "CMT1", "CMT2", "CMT3", "CMT4", "zzzz"}[p-14]
+		z.box(24, zzSize("s0", N, N-24), "moov")
+		z.box(32, zzSize("s1", N, N-32), "uuid")
+		z.str(40, zzUUIDs[0])
+		z.box(56, zzSize("s2", N, 48), typ)
+		z.str(64, "II*\x00\x08\x00\x00\x00\x00\x00")
+	default: // uuid xpacket / preview(PRVW) / unknown
+		k := p - 21
+		z.box(24, zzSize("s0", N, N-24), "uuid")
+		if k < 2 {
+			z.str(32, zzUUIDs[1+k])
+		}
+		z.box(56, zzSize("s1", N, 40), "PRVW")
+	}
+	for mode := 0; mode < 2; mode++ {
+		_ = zzBmffRun(z.b, 2, mode, false)
+	}
+	zzReached("end")
+}
